@@ -73,6 +73,30 @@ type c01ParkReq struct {
 
 var c01Park sync.Map // goroutine id -> *c01ParkReq
 
+// c01Reach: goroutine id -> *atomic.Bool, set when that goroutine reaches the hook "bsp.OnEnd.checked", i.e. its OnEnd
+// passed the `stopped` check (the span is accepted: the model's label `accept`). c01HookOn is set by the verif-tagged
+// file when the hooks are compiled in; without them the harness falls back to loading `stopped` before the call.
+var c01Reach sync.Map
+var c01HookOn atomic.Bool
+var c01ReachN, c01ParkN atomic.Int64 // number of armed recorders / parking requests
+
+// c01OnEnd calls OnEnd in the current goroutine and reports whether the call passed the processor's own `stopped`
+// check (exact with the hooks; otherwise `stopped` was still false just before the call).
+func c01OnEnd(bsp *batchSpanProcessor, s ReadOnlySpan) bool {
+	if !c01HookOn.Load() {
+		before := bsp.stopped.Load()
+		bsp.OnEnd(s)
+		return !before
+	}
+	id := c01Goid()
+	flag := &atomic.Bool{}
+	c01Reach.Store(id, flag)
+	c01ReachN.Add(1)
+	defer func() { c01Reach.Delete(id); c01ReachN.Add(-1) }()
+	bsp.OnEnd(s)
+	return flag.Load()
+}
+
 func c01Goid() int {
 	var buf [64]byte
 	n := runtime.Stack(buf[:], false)
@@ -86,7 +110,18 @@ func c01Goid() int {
 
 // c01HookFn is installed as VerifPointFn by the verif-tagged file.
 func c01HookFn(name string) {
+	// no overhead (no timing change of the code under test) at points nobody is interested in: the hist leg only
+	// records OnEnd.checked, the park leg only looks while a parking request is armed
+	wantReach := name == "bsp.OnEnd.checked" && c01ReachN.Load() > 0
+	if !wantReach && c01ParkN.Load() == 0 {
+		return
+	}
 	id := c01Goid()
+	if wantReach {
+		if v, ok := c01Reach.Load(id); ok {
+			v.(*atomic.Bool).Store(true)
+		}
+	}
 	if v, ok := c01Park.Load(id); ok {
 		req := v.(*c01ParkReq)
 		if req.name == name {
@@ -108,7 +143,8 @@ func c01ParkCall(r *c01Run, name string, call func()) *c01ParkReq {
 		defer close(done)
 		id := c01Goid()
 		c01Park.Store(id, req)
-		defer c01Park.Delete(id)
+		c01ParkN.Add(1)
+		defer func() { c01Park.Delete(id); c01ParkN.Add(-1) }()
 		call()
 	}()
 	select {
@@ -659,13 +695,14 @@ func c01OneHist(seed uint64) string {
 			for k := 0; k < perProd; k++ {
 				id := p*1000 + k
 				sampled := pr.Intn(8) != 0
-				stoppedBefore := bsp.stopped.Load()
 				done := make(chan struct{})
-				go func() { bsp.OnEnd(c01Span(id, sampled)); close(done) }()
+				accepted := false
+				go func() { accepted = c01OnEnd(bsp, c01Span(id, sampled)); close(done) }()
 				select {
 				case <-done:
-					// only an End that was not refused because of Shutdown counts as "accepted"
-					if !stoppedBefore {
+					// only an End that was not refused because of Shutdown counts as "accepted" (the model's `accept`):
+					// with the verif hooks exactly the calls that passed the processor's own stopped check
+					if accepted {
 						if sampled {
 							exp.stamp("E" + strconv.Itoa(id))
 						} else {
